@@ -116,6 +116,14 @@ where
 
         // read layer commitments from the channel and use them to build a list of alphas
         let layer_commitments = channel.read_fri_layer_commitments();
+        // one commitment per FRI layer plus the commitment to the remainder polynomial
+        let expected_commitments = options.num_fri_layers(domain_size) + 1;
+        if layer_commitments.len() != expected_commitments {
+            return Err(VerifierError::NumLayerCommitmentsMismatch(
+                expected_commitments,
+                layer_commitments.len(),
+            ));
+        }
         let mut layer_alphas = Vec::with_capacity(layer_commitments.len());
         let mut max_degree_plus_1 = max_poly_degree + 1;
         for (depth, commitment) in layer_commitments.iter().enumerate() {
